@@ -9,9 +9,10 @@
 // term (symbolic): one evaluation per operator and shape with symbolic operands; the result
 // strings encode every application, so operand order, accumulation order, the number of
 // scalar operator invocations and reads of moved-from scalars are all observable.  The
-// accumulation order (left fold starting from literal 0) is what every overload of the
-// unchanged tree implements; a deviation in the sum order only gets its own signature
-// (:accumulation_order) so that it can be told apart from swapped factors (:operand_order).
+// Only the elementary products (which two scalars, on which side) are judged for term; the
+// accumulation order, the number of operator invocations, reads of moved-from scalars that do
+// not reach the result and other value-preserving differences of the expression shape are
+// recorded as info:* counters.
 #include "C14_common.hpp"
 #include "C14_scalar.hpp"
 
@@ -111,6 +112,16 @@ std::vector<std::string> leaf_products(std::string const &s)
   return out;
 }
 
+// compound operators normalised: "(a*=b)" -> "(a*b)", "+=" -> "+", "-=" -> "-"
+std::string canon(std::string const &s)
+{
+  std::string r;
+  for (std::size_t i = 0; i < s.size(); ++i)
+    if (!(s[i] == '=' && i > 0 && (s[i - 1] == '*' || s[i - 1] == '+' || s[i - 1] == '-')))
+      r += s[i];
+  return r;
+}
+
 // run the fcppt expression and the plain-array oracle, compare values (and, for term, the
 // operator invocation counts and the moved-from reads)
 template <class T> void run_case(std::string const &sig, char const *what, std::function<std::vector<T>()> const &fc, std::function<std::vector<T>()> const &oracle)
@@ -124,29 +135,37 @@ template <class T> void run_case(std::string const &sig, char const *what, std::
   g_term = term_counters{};
   if (!(got == want))
   {
-    std::string cls = ":wrong";
-    if constexpr (sc<T>::symbolic)
-    {
-      bool same_products = got.size() == want.size();
-      for (std::size_t i = 0; same_products && i < got.size(); ++i)
-        same_products = leaf_products(got[i].s) == leaf_products(want[i].s);
-      cls = same_products ? ":accumulation_order" : ":operand_order";
-    }
-    // the order in which the products of one component are summed (and whether the sum starts from a literal 0) is not
-    // part of the property -- over an exact ring every order gives the same value -- so it is recorded, not judged
-    if (cls == ":accumulation_order")
-      vrt::count("info:" + sig + cls);
+    if constexpr (!sc<T>::symbolic)
+      failv(sig + ":wrong", std::string(what) + ": got " + show_vec(got) + " want " + show_vec(want));
     else
-      failv(sig + cls, std::string(what) + ": got " + show_vec(got) + " want " + show_vec(want));
+    {
+      // A symbolic result may legitimately differ from the plain-array loop in everything that does not change the
+      // value over an exact ring: the order in which the products of a component are summed, whether the sum starts
+      // from a literal 0, a - b written as a + (-b), a compound a *= b written as a = a * b.  What the documentation
+      // does fix is which two scalars are multiplied and on which side ("Multiplies a vector by a scalar on the left":
+      // s * v[i]; "on the right": v[i] * s; row times column: a[i][k] * b[k][j]).  So only the multiset of elementary
+      // products (compound forms normalised) is judged, and only for operations whose plain-array form contains a product.
+      bool oracle_has_product = false, same_products = got.size() == want.size();
+      for (std::size_t i = 0; i < want.size(); ++i)
+        oracle_has_product = oracle_has_product || !leaf_products(canon(want[i].s)).empty();
+      for (std::size_t i = 0; same_products && i < got.size(); ++i)
+        same_products = leaf_products(canon(got[i].s)) == leaf_products(canon(want[i].s));
+      if (oracle_has_product && !same_products)
+        failv(sig + ":operand_order", std::string(what) + ": got " + show_vec(got) + " want " + show_vec(want));
+      else
+        vrt::count("info:" + sig + ":expression_shape"); // recorded, never a verdict
+    }
   }
   if constexpr (sc<T>::symbolic)
   {
+    // reads of a moved-from scalar that do not reach the result (they would show up in the strings above) and the
+    // number of scalar operations an implementation spends are implementation details: recorded, not judged
     if (cf.moved_reads != 0)
-      failv(sig + ":moved_from_read", std::string(what) + ": a moved-from scalar was read " + std::to_string(cf.moved_reads) + " times");
+      vrt::count("info:" + sig + ":moved_from_read");
     term_counters a = cf, b = co;
     a.moved_reads = b.moved_reads = 0;
     if (!(a == b))
-      vrt::count("info:" + sig + ":invocations"); // how many scalar operations an implementation spends is recorded, not judged
+      vrt::count("info:" + sig + ":invocations");
   }
 }
 
